@@ -7,4 +7,11 @@ Definition c09_impl_crc := crc_of ConstsCrc.crc_poly ConstsCrc.crc_init.
 Definition c09_impl_crc_bytes := crc_bytes_of ConstsCrc.crc_poly ConstsCrc.crc_init.
 Definition c09_spec_crc := m17_crc.
 Definition c09_spec_crc0 (bytes : list N) := crc0_bits m17_poly (bytes_bits bytes).
-Extraction "c09_model.ml" c09_impl_crc c09_impl_crc_bytes c09_spec_crc c09_spec_crc0 xor_bytes.
+(* the engine as a state machine over reg_ (for operation sequences on one reused object) *)
+Definition c09_reg_init : N := ConstsCrc.crc_init.                       (* member initialiser: reg_ = Init *)
+Definition c09_reg_reset : N := reset_reg ConstsCrc.crc_poly ConstsCrc.crc_init.
+Definition c09_reg_byte (reg byte : N) : N := crc_byte ConstsCrc.crc_poly reg byte.
+Definition c09_reg_get (reg : N) : N := get ConstsCrc.crc_poly reg.
+Definition c09_reg_get_bytes (reg : N) : list N := get_bytes ConstsCrc.crc_poly reg.
+Extraction "c09_model.ml" c09_impl_crc c09_impl_crc_bytes c09_spec_crc c09_spec_crc0 xor_bytes
+  c09_reg_init c09_reg_reset c09_reg_byte c09_reg_get c09_reg_get_bytes.
